@@ -230,6 +230,17 @@ def family_interceptors():
                 steps = submits([(1, 0), (2, 0)]) + [{"op": "wait_outcomes", "n": 2, "ms": 3000}] + submits([(3, 0)])
                 steps += [{"op": "wait_outcomes", "n": 3, "ms": 3000}, {"op": "close"}]
                 out.append(sc("ic%d-%s-%s" % (n, fname, v), "interceptors", cfg, steps, {"1": plan} if plan else {}))
+    # messages the producer itself rejects (too large; headers on a pre-0.11 version) were submitted too: the chain runs for them
+    for n in (1, 2):
+        for v in ("0.10.0.0", "0.11.0.0"):
+            cfg = dict(interceptors=n, retryMax=1, leaders=[1], nbrokers=1, version=v, maxMsgBytes=300)
+            steps = [{"op": "submit", "id": 1, "part": 0, "size": 40}, {"op": "submit", "id": 2, "part": 0, "size": 900},
+                     {"op": "submit", "id": 3, "part": 0, "size": 40}, {"op": "wait_outcomes", "n": 3, "ms": 3000}, {"op": "close"}]
+            out.append(sc("ic%d-reject-oversize-%s" % (n, v), "interceptors", cfg, steps))
+        cfg = dict(interceptors=n, retryMax=1, leaders=[1], nbrokers=1, version="0.10.0.0")
+        steps = [{"op": "submit", "id": 1, "part": 0}, {"op": "submit", "id": 2, "part": 0, "hdrs": 2},
+                 {"op": "submit", "id": 3, "part": 0}, {"op": "wait_outcomes", "n": 3, "ms": 3000}, {"op": "close"}]
+        out.append(sc("ic%d-reject-headers" % n, "interceptors", cfg, steps))
     return out
 
 
